@@ -69,6 +69,9 @@ func findMethod(f *ast.File, recv, name string) *ast.FuncDecl {
 // package, filled by loadPkgConsts) and the current value of iota.
 var constEnv = map[string]int64{}
 
+// names bound to different values in different scopes of the package: never resolved
+var ambiguousConst = map[string]bool{}
+
 // loadPkgConsts evaluates the package-level integer constants of every non-test .go file in
 // dir (relative to the repo), with iota and implicit repetition, and adds them to constEnv,
 // so that a refactoring that names a literal does not change the extracted tables.
@@ -83,11 +86,24 @@ func loadPkgConsts(dir string) {
 			if err != nil {
 				continue
 			}
+			// package-level declarations and constants declared inside function bodies
+			// (a name bound to two different values anywhere in the package is dropped:
+			// fail closed)
+			var decls []*ast.GenDecl
 			for _, d := range f.Decls {
-				gd, ok := d.(*ast.GenDecl)
-				if !ok || gd.Tok != token.CONST {
-					continue
+				if gd, ok := d.(*ast.GenDecl); ok && gd.Tok == token.CONST {
+					decls = append(decls, gd)
 				}
+			}
+			ast.Inspect(f, func(n ast.Node) bool {
+				if ds, ok := n.(*ast.DeclStmt); ok {
+					if gd, ok := ds.Decl.(*ast.GenDecl); ok && gd.Tok == token.CONST {
+						decls = append(decls, gd)
+					}
+				}
+				return true
+			})
+			for _, gd := range decls {
 				var last []ast.Expr
 				for i, sp := range gd.Specs {
 					vs := sp.(*ast.ValueSpec)
@@ -100,8 +116,13 @@ func loadPkgConsts(dir string) {
 					constEnv["iota"] = int64(i)
 					for j, n := range vs.Names {
 						if j < len(vals) {
-							if v, ok := constInt(vals[j]); ok {
-								constEnv[n.Name] = v
+							if v, ok := constInt(vals[j]); ok && !ambiguousConst[n.Name] {
+								if old, seen := constEnv[n.Name]; seen && old != v {
+									ambiguousConst[n.Name] = true
+									delete(constEnv, n.Name)
+								} else {
+									constEnv[n.Name] = v
+								}
 							}
 						}
 					}
